@@ -41,7 +41,12 @@ type TCase struct {
 	PrevNoB64        bool `json:"prev_no_base64,omitempty"`
 	PrevWriteDefault bool `json:"prev_write_default,omitempty"`
 	PrevI2S          bool `json:"prev_int64_string,omitempty"`
+	// rejected conversions run on the same converters before the round trip (bit i = poisonDocs[i]; bit 7 = a truncated message)
+	Poison uint8 `json:"poison,omitempty"`
 }
+
+// documents every converter rejects; a rejected conversion must not change what the next one does
+var poisonDocs = []string{`{"no_such_member_q":tru}`, `{"no_such_member_q":{"a":[1,2`, `{"no_such_member_q":"x"`, `[1,`, `{"a":nul`, `{"no_such_member_q":[{"b":-}]}`, `{"\ud800":1,`}
 
 func sanitize(v *tm.Value) {
 	if v.K == tm.STRING {
@@ -79,6 +84,19 @@ func checkThrift(c *pbt.Ctx, cs TCase) {
 	tj.SetOptions(conv.Options{Int642String: cs.I2S, NoBase64Binary: cs.NoB64})
 	jt.SetOptions(conv.Options{String2Int64: cs.I2S, NoBase64Binary: cs.NoB64})
 	var j1, m2, j2 []byte
+	poison := func() {
+		for i, d := range poisonDocs {
+			if cs.Poison&(1<<uint(i)) != 0 {
+				c.Step("a rejected j2t conversion first: %s", d)
+				c.Protect("", func() { _, _ = jt.Do(ctx, comp.Root, append(make([]byte, 0, len(d)+64), d...)) })
+			}
+		}
+		if cs.Poison&0x80 != 0 && len(enc) > 1 {
+			c.Step("a t2j conversion of a truncated message first")
+			c.Protect("", func() { _, _ = tj.Do(ctx, comp.Root, append(make([]byte, 0, len(enc)+16), enc[:len(enc)/2]...)) })
+		}
+	}
+	poison()
 	c.Step("t2j")
 	if !c.Protect("", func() { j1, err = tj.Do(ctx, comp.Root, m) }) {
 		return
@@ -87,6 +105,7 @@ func checkThrift(c *pbt.Ctx, cs TCase) {
 		c.Failf("t2j-error", "t2j fails on a conforming message without unknown fields: %v", err)
 		return
 	}
+	poison()
 	c.Step("j2t of t2j output")
 	if cs.BufRel >= 0 {
 		cs.BufCap = len(j1)*cs.BufMul + cs.BufRel
@@ -131,6 +150,9 @@ func checkThrift(c *pbt.Ctx, cs TCase) {
 		c.NonTrivial()
 	}
 	c.Class(fmt.Sprintf("pair:i2s=%v,nob64=%v", cs.I2S, cs.NoB64))
+	if cs.Poison != 0 {
+		c.Class("after-rejected-conversions")
+	}
 	if len(j1) > 4096 {
 		c.Class("json>4096")
 	}
@@ -145,7 +167,7 @@ func head(b []byte) []byte {
 
 var TProp = pbt.Register(pbt.Prop[TCase]{
 	Name: "TestThriftRoundTrip",
-	Rule: "generated IDL (requiredness, aliases, recursion, big ids) + conforming messages without unknown fields (finite doubles incl. -0/subnormals/extremes, integer boundaries, valid UTF-8 strings with control characters and lengths around 16/32/4096, arbitrary binaries, empty containers and strings, integer-keyed maps, shuffled wire order) x option pairs (Int642String+String2Int64, NoBase64Binary on both; installed with SetOptions on converters that held other options); m -> t2j -> j2t must give m byte for byte, and t2j again must denote the same value; every step must succeed; non-trivial = value with >= 4 nodes",
+	Rule: "generated IDL (requiredness, aliases, recursion, big ids) + conforming messages without unknown fields (finite doubles incl. -0/subnormals/extremes, integer boundaries, valid UTF-8 strings with control characters and lengths around 16/32/4096, arbitrary binaries, empty containers and strings, integer-keyed maps, shuffled wire order) x option pairs (Int642String+String2Int64, NoBase64Binary on both; installed with SetOptions on converters that held other options); m -> t2j -> j2t must give m byte for byte, and t2j again must denote the same value; every step must succeed, also right after conversions of malformed documents / a truncated message that the same converters rejected; non-trivial = value with >= 4 nodes",
 	Gen: func(t *rapid.T) TCase {
 		cfg := tm.GenCfg{MaxDepth: 3, KeyKinds: tjson.SupportedKeys, Reqs: true, Aliases: true, Recursive: true, WireOrder: true, ValidUTF8: true, FiniteDoubles: true,
 			BigSizes: rapid.IntRange(0, 4).Draw(t, "bigSizes") == 0, BigIDs: rapid.IntRange(0, 3).Draw(t, "bigIDs") == 0}
@@ -156,6 +178,9 @@ var TProp = pbt.Register(pbt.Prop[TCase]{
 			BufRel: rapid.IntRange(-24, 200).Draw(t, "bufRel"), BufMul: rapid.IntRange(1, 5).Draw(t, "bufMul"), PrevNoB64: rapid.Bool().Draw(t, "prevNoB64"), PrevWriteDefault: rapid.Bool().Draw(t, "prevWriteDefault"), PrevI2S: rapid.Bool().Draw(t, "prevI2S")}
 		if cs.NoB64 {
 			sanitize(v)
+		}
+		if rapid.IntRange(0, 2).Draw(t, "poisoned") == 0 {
+			cs.Poison = uint8(rapid.IntRange(1, 255).Draw(t, "poison"))
 		}
 		return cs
 	},
@@ -171,6 +196,7 @@ type PCase struct {
 	Schema pmodel.Schema `json:"schema"`
 	Msg    []byte        `json:"msg"` // reference encoding
 	BufCap int           `json:"buf_cap"`
+	Poison uint8         `json:"poison,omitempty"` // see TCase.Poison
 }
 
 // sameJSON compares two parsed documents; object member order is not significant (proto maps are unordered).
@@ -242,6 +268,19 @@ func checkProto(c *pbt.Ctx, cs PCase) {
 	jp := j2p.NewBinaryConv(conv.Options{})
 	src := append(make([]byte, 0, len(cs.Msg)+16), cs.Msg...)
 	var j1, b2, j2 []byte
+	poison := func() {
+		for i, d := range poisonDocs {
+			if cs.Poison&(1<<uint(i)) != 0 {
+				c.Step("a rejected j2p conversion first: %s", d)
+				c.Protect("", func() { _, _ = jp.Do(ctx, desc, append(make([]byte, 0, len(d)+64), d...)) })
+			}
+		}
+		if cs.Poison&0x80 != 0 && len(cs.Msg) > 1 {
+			c.Step("a p2j conversion of a truncated message first")
+			c.Protect("", func() { _, _ = pj.Do(ctx, desc, append(make([]byte, 0, len(cs.Msg)+16), cs.Msg[:len(cs.Msg)/2]...)) })
+		}
+	}
+	poison()
 	c.Step("p2j")
 	if !c.Protect("", func() { j1, err = pj.Do(ctx, desc, src) }) {
 		return
@@ -250,6 +289,7 @@ func checkProto(c *pbt.Ctx, cs PCase) {
 		c.Failf("p2j-error", "p2j fails on a reference-encoded message: %v", err)
 		return
 	}
+	poison()
 	c.Step("j2p of p2j output")
 	if !c.Protect("", func() {
 		buf := make([]byte, 0, cs.BufCap)
@@ -292,6 +332,9 @@ func checkProto(c *pbt.Ctx, cs PCase) {
 	if len(n1.Keys) >= 3 {
 		c.NonTrivial()
 	}
+	if cs.Poison != 0 {
+		c.Class("after-rejected-conversions")
+	}
 }
 
 func short(m proto.Message) string {
@@ -304,7 +347,7 @@ func short(m proto.Message) string {
 
 var PProp = pbt.Register(pbt.Prop[PCase]{
 	Name: "TestProtoRoundTrip",
-	Rule: "generated proto3 schema (every scalar kind, enums, nested/recursive messages, repeated, maps with supported key kinds) + reference-encoded message with finite floats (uint64 >= 2^63, fixed32 >= 2^31, negative int32, empty strings/bytes in lists and maps); m -> p2j -> j2p must be proto.Equal to m under protobuf-go, and p2j again must denote the same JSON value; every step must succeed; non-trivial = root object with >= 3 members",
+	Rule: "generated proto3 schema (every scalar kind, enums, nested/recursive messages, repeated, maps with supported key kinds) + reference-encoded message with finite floats (uint64 >= 2^63, fixed32 >= 2^31, negative int32, empty strings/bytes in lists and maps); m -> p2j -> j2p must be proto.Equal to m under protobuf-go, and p2j again must denote the same JSON value; every step must succeed, also right after conversions of malformed documents / a truncated message that the same converters rejected; non-trivial = root object with >= 3 members",
 	Gen: func(t *rapid.T) PCase {
 		sc := pmodel.GenSchema(t, pmodel.GenOpts{AllKinds: rapid.IntRange(0, 2).Draw(t, "allKinds") == 0, KeyKinds: pmodel.SupportedKeyKinds})
 		comp, err := pmodel.Compile(sc.Render(), sc.Main)
@@ -312,7 +355,11 @@ var PProp = pbt.Register(pbt.Prop[PCase]{
 			t.Fatalf("generator produced an invalid schema: %v", err)
 		}
 		m := pmodel.GenMessage(t, comp.Msg("pkg.Root"), pmodel.MsgOpts{MaxDepth: 2, MaxElems: 3, FiniteOnly: true})
-		return PCase{Schema: sc, Msg: pmodel.Marshal(m), BufCap: []int{0, 1, 64, 4096}[rapid.IntRange(0, 3).Draw(t, "bufCap")]}
+		cs := PCase{Schema: sc, Msg: pmodel.Marshal(m), BufCap: []int{0, 1, 64, 4096}[rapid.IntRange(0, 3).Draw(t, "bufCap")]}
+		if rapid.IntRange(0, 2).Draw(t, "poisoned") == 0 {
+			cs.Poison = uint8(rapid.IntRange(1, 255).Draw(t, "poison"))
+		}
+		return cs
 	},
 	Check: checkProto,
 })
